@@ -433,9 +433,18 @@ Definition mixed_outcome (b : backend) (s : solver) (v : bool) (first_plain : bo
   andthen (validate_backend_args (mixed_config b s v e))
           (if v then Err EOther else outcome (mixed_config b s v e)).
 
+(* the same mixture through the PopulationTemplate / Connectivity API (NetworkGraph._add_matrix_delay): one population
+   projecting onto itself through a plain-delay matrix connection and a delay+spread one, in either order.  The
+   guards alone decide (an adaptive solver uses the ODE cascade, no history); on Fortran the probe model does not
+   survive f2py (class EOther). *)
+Definition pop_outcome (b : backend) (s : solver) (v : bool) (first_plain : bool) (e : entry) : result :=
+  andthen (validate_backend_args (mixed_config b s v e))
+          (if backend_eqb b BFortran then Err EOther else accepts (mixed_config b s v e)).
+
 Inductive probe :=
   | PConfig (c : config)
   | PMixed (b : backend) (s : solver) (v : bool) (first_plain : bool) (e : entry)
+  | PPopMixed (b : backend) (s : solver) (v : bool) (first_plain : bool) (e : entry)
   | PVname (v : string)
   | PVars (vars : list vardecl)
   | PEquation (declared used : list string)
@@ -453,6 +462,7 @@ Definition impl (p : probe) : result :=
   match p with
   | PConfig c => outcome c
   | PMixed b s v fp e => mixed_outcome b s v fp e
+  | PPopMixed b s v fp e => pop_outcome b s v fp e
   | PVname v => check_vname v
   | PVars vars => scan_vars vars false
   | PEquation d u => check_equation d u
@@ -478,7 +488,7 @@ Definition NodeValueTarget (net : network) (p : path) : Prop :=
 Definition WellFormed (p : probe) : Prop :=
   match p with
   | PConfig c => Supported c
-  | PMixed b s v _ e => Supported (mixed_config b s v e)
+  | PMixed b s v _ e | PPopMixed b s v _ e => Supported (mixed_config b s v e)
   | PVname v => ~ Reserved v
   | PVars vars => (forall n t, In (n, t) vars -> ~ Reserved n) /\ count_outputs vars <= 1
   | PEquation d u => forall x, In x u -> In x d
@@ -505,7 +515,7 @@ Definition node_value_targetb (net : network) (p : path) : bool :=
 Definition wellformedb (p : probe) : bool :=
   match p with
   | PConfig c => supportedb c
-  | PMixed b s v _ e => supportedb (mixed_config b s v e)
+  | PMixed b s v _ e | PPopMixed b s v _ e => supportedb (mixed_config b s v e)
   | PVname v => is_ok (check_vname v)
   | PVars vars => forallb (fun d => is_ok (check_vname (fst d))) vars && Nat.leb (count_outputs vars) 1
   | PEquation d u => forallb (fun x => mem x d) u
